@@ -1,9 +1,18 @@
 #!/bin/sh
-# Build the whole framework from files on disk (offline): Lean model + proofs + drivers,
-# then the Rust harness against /repo's current tree with the verif-hooks feature.
+# Build the framework from files on disk (offline): for every check claimed in
+# MANIFEST.json the Lean theorems + compiled model driver, and the Rust harness binary
+# against /repo's current tree with the verif-hooks feature.
 set -e
 cd "$(dirname "$0")"
 export CARGO_NET_OFFLINE=true
-( cd lean && lake build )
-( cd harness && cargo build --release --offline --bins )
-echo "setup ok"
+IDS=$(python3 -c "import json;print(' '.join(c['property_id'] for c in json.load(open('MANIFEST.json'))['checks']))")
+LEAN_TARGETS="ClarabelProofs.AuditTool"
+BINS=""
+for id in $IDS; do
+  low=$(echo "$id" | tr 'A-Z' 'a-z')
+  LEAN_TARGETS="$LEAN_TARGETS ClarabelProofs.Props.$id cm_$low"
+  BINS="$BINS --bin $low"
+done
+( cd lean && lake build $LEAN_TARGETS )
+( cd harness && cargo build --release --offline $BINS )
+echo "setup ok: $IDS"
